@@ -30,21 +30,21 @@ CHECKS = [
         NOTE + "Not decided: that ILLsimplex_infcertificate produces a ray that passes (completeness).",
         TECH, "DESIGN.md 4/C02"),
     chk("C05", "proof",
-        "Invalidation half: every public edit wrapper of qsopt.c under contract: success drops the cached solution and marks the problem modified (I1), success of a matrix/dimension edit clears the factorization flag (I2), failure leaves cache/status/flag/basis untouched (I3); unbounded (loop-free) modular proofs with the library callee as a nondeterministic stub -- except QSchange_senses, whose row-list walk is closed by a loop invariant with the list length capped at 64 (labelled bounded). Also: the solve entry points QSopt_primal / QSopt_dual / opt_work (a solve re-reads the problem unless the factorization flag is set), the accessor wrappers (a modified problem serves no solution), ILLlib_chgsense / chgrange / delrows updating every dependent field (bounded), QSchange_senses / QSchange_sense keeping the stored basis loadable (no 'at upper' status for a row that is no longer ranged).",
+        "Invalidation half: every public edit wrapper of qsopt.c under contract: success drops the cached solution and marks the problem modified (I1), success of a matrix/dimension edit clears the factorization flag (I2), failure leaves cache/status/flag/basis untouched (I3); unbounded (loop-free) modular proofs with the library callee as a nondeterministic stub -- except QSchange_senses, whose row-list walk is closed by a loop invariant with the list length capped at 64 (labelled bounded). Also: the solve entry points QSopt_primal / QSopt_dual / opt_work (a solve re-reads the problem unless the factorization flag is set), the accessor wrappers (a modified problem serves no solution), ILLlib_chgsense / chgrange / delrows updating every dependent field (bounded), QSchange_senses / QSchange_sense keeping the stored basis loadable (no 'at upper' status for a row that is no longer ranged), QSchange_objsense installing the objective limit of the new sense, QSload_basis / QSload_basis_array / QSread_and_load_basis dropping the stored solution of the previous basis, QSgrab_cache.",
         NOTE + "Not decided: 'the next solve equals a from-scratch solve' (solver correctness).",
         TECH, "DESIGN.md 4/C05"),
     chk("C06", "proof",
-        "Queries and single-entry edits of lib.c under contract at ghost indices (stored value is the value returned / the value given); unbounded where the loop does not read through an index map, otherwise map length capped (stated per group). Relocating and multi-entry edits as bounded groups against a dense reference view: ILLlib_chgcoef / getcoef (2-3 columns), ILLlib_delrows / delcols, ILLlib_chgsense / chgrange, ILLlib_addrow, and the symbol table (register / delete / lookup / index map, string pool compaction) on fixed operation scenarios; ILLlp_rows_init (row-major copy) on a constructed pattern; the external / internal index mapping of ILLlib_solution.",
+        "Queries and single-entry edits of lib.c under contract at ghost indices (stored value is the value returned / the value given); unbounded where the loop does not read through an index map, otherwise map length capped (stated per group). Relocating and multi-entry edits as bounded groups against a dense reference view: ILLlib_chgcoef / getcoef (2-3 columns), ILLlib_delrows / delcols, ILLlib_chgsense / chgrange, ILLlib_addrow, and the symbol table (register / delete / lookup / index map, string pool compaction) on fixed operation scenarios; ILLlp_rows_init (row-major copy), ILLlib_getcols and ILLlib_getrows on a constructed pattern with the column map the identity or not; ILLlib_addcol against the dense reference view; the external / internal index mapping of ILLlib_solution.",
         NOTE, TECH, "DESIGN.md 4/C06"),
     chk("C07", "proof",
-        "Modular proofs (CBMC dfcc contract enforcement, symbolic array sizes up to 30000) that the functions under contract reject invalid arguments with a non-zero code and an empty frame (conditional assigns), with all pointer/bounds/overflow checks discharged; QSset_param / QSget_param over every parameter code and value (loop-free, full domain).",
+        "Modular proofs (CBMC dfcc contract enforcement, symbolic array sizes up to 30000) that the functions under contract reject invalid arguments with a non-zero code and an empty frame (conditional assigns), with all pointer/bounds/overflow checks discharged; QSset_param / QSget_param over every parameter code and value (loop-free, full domain); deletion lists that name an index twice, ILLlib_addcol with an out-of-range row index (nothing, the name table included, may change).",
         NOTE, TECH, "DESIGN.md 4/C07"),
     chk("C10", "other",
         "Bounded contract check of the exact literal scanner mpq_EGlpNumReadStrXc and of ILLget_value on CONSTRUCTED well-formed literals (integers, decimals, exponent forms, signed, fractions p/q of such numbers): the whole literal is consumed and the value is exactly the rational it spells (computed independently by integer arithmetic); omitted coefficient is 1; a zero divisor is rejected. Bounds (digits, exponent) stated per group. Also bounded groups for value-level rules above the scanner: infinity spellings of bound values (LP and MPS), the MPS BOUNDS table with the implicit-bound rules (mps_set_bound, ILLraw_set_*, ILLraw_fill_in_bounds) against an independent reference, the MPS RANGES interpretation (transferRanges) and 'repeated terms add up' for the objective (transferObjective), the last two in exact integer arithmetic; and the LP-format reader above the scanner with the scanner replaced by a token cursor: the constraint expression assembly (sign * coefficient, omitted coefficient 1), one constraint (sense, right-hand side), the bounds section against an independent reference parser of its grammar, the integer list, the objective-sense keyword in every letter case, and the section sequencer with the real keyword tests.",
         NOTE + "Not decided: grammar-level rules (keyword spellings, comments, line structure, sections), repeated-term merging in constraint rows in general (buildMatrix: symbolic-size allocations exhaust the solver; one constructed shape is checked), objective / constraint names and generated row names, digit counts beyond the stated bound.",
         TECH, "DESIGN.md 4/C10"),
     chk("C11", "other",
-        "Per-function bounded contract checks of reader functions for every byte content of their (capacity-reduced) buffers: the literal scanner on arbitrary short strings (no division by zero, no out-of-bounds read), the three error formatters for every formatted length (no write outside the 256-byte buffer, error reaches the collector), next_line progress (consumes a line or sets eof). Also: twelve character-level scanners of the LP reader and five of the MPS reader on every line content of at most 4 bytes with arbitrary stale bytes behind the terminator (the cursor stays inside the line text; fields are terminated), the basis-file reader ILLlib_readbasis on every sequence of at most 4 records, transferRanges on N rows, the symbol table scenarios, the MPS section state machine (ILLread_mps, read_mps_section, read_mps_line_in_section and the name / objective-sense handlers) on every file of at most 3 lines (thorough tier) -- no row is added after an accepted RHS / RANGES header, no column after a BOUNDS header, handlers only in the first occurrence of a section --, the four MPS data-line handlers with every callee returning arbitrary results, buildMatrix on one constructed shape (dropped column before a repeated term), ILLcheck_rawlpdata / ILLraw_check_bounds, and the LP reader's expression, constraint, bounds, integer and section functions on every token stream within their bounds.",
+        "Per-function bounded contract checks of reader functions for every byte content of their (capacity-reduced) buffers: the literal scanner on arbitrary short strings (no division by zero, no out-of-bounds read), the three error formatters for every formatted length (no write outside the 256-byte buffer, error reaches the collector), next_line progress (consumes a line or sets eof). Also: twelve character-level scanners of the LP reader and five of the MPS reader on every line content of at most 4 bytes with arbitrary stale bytes behind the terminator (the cursor stays inside the line text; fields are terminated), the basis-file reader ILLlib_readbasis on every sequence of at most 4 records, QSerror_print leaving the caller's stream open, transferRanges on N rows, the symbol table scenarios, the MPS section state machine (ILLread_mps, read_mps_section, read_mps_line_in_section and the name / objective-sense handlers) on every file of at most 3 lines (thorough tier) -- no row is added after an accepted RHS / RANGES header, no column after a BOUNDS header, handlers only in the first occurrence of a section --, the four MPS data-line handlers with every callee returning arbitrary results, buildMatrix on one constructed shape (dropped column before a repeated term), ILLcheck_rawlpdata / ILLraw_check_bounds, and the LP reader's expression, constraint, bounds, integer and section functions on every token stream within their bounds.",
         NOTE + "Not decided: whole-file behaviour, compressed streams, reader functions not listed in the evidence; buffer capacity ILL_namebufsize is reduced from 131072 to 512 (16 for the character-level scanner groups) in the scratch copy for these groups (one #define line, must-fire); the LP section sequencer is checked with its section bodies stubbed (lp/sections); special ordered sets in the reader are beyond the tool (tried, see DESIGN.md 9.2).",
         TECH, "DESIGN.md 4/C11"),
     chk("C12", "other",
